@@ -1,6 +1,7 @@
 package main
 
 import (
+	"reflect"
 	"bytes"
 	"crypto/ed25519"
 	"fmt"
@@ -69,6 +70,10 @@ func runC06(c *Ctx) {
 					ok1, e1 := info.VerifySignature()
 					b, berr := info.Bytes()
 					c.Check("signed_verifies_before_wire", ok1 && e1 == nil && berr == nil, "NewRouterInfo", [][]byte{b}, "", fmt.Sprintf("VerifySignature()=%v,%v", ok1, e1))
+					if ok1 && e1 == nil && berr == nil {
+						okq, dq := verifiesAfterQueries(info)
+						c.Check("signed_verifies_before_wire", okq, "NewRouterInfo", [][]byte{b}, "", dq)
+					}
 					if berr == nil {
 						sc := signedCase{E_VerifyRouterInfo, "RouterInfo.VerifySignature", nil, b, nil}
 						var v bool
@@ -80,6 +85,10 @@ func runC06(c *Ctx) {
 							okw = ok2 && e2 == nil
 						}
 						c.Check("signed_verifies_after_wire", okw && v, "NewRouterInfo", [][]byte{b}, "", fmt.Sprintf("parse err=%v rem=%d", perr, len(rem)))
+						if okw {
+							okq, dq := verifiesAfterQueries(&p2)
+							c.Check("signed_verifies_after_wire", okq, "NewRouterInfo", [][]byte{b}, "", dq)
+						}
 					}
 				} else {
 					// a router without addresses is inadmissible by the library's own RouterInfo.Validate
@@ -113,13 +122,23 @@ func runC06(c *Ctx) {
 				ls, nerr := lease_set.NewLeaseSet(d, ek, spk, leases, &priv)
 				if nerr == nil {
 					b, berr := ls.Bytes()
-					c.Check("signed_verifies_before_wire", ls.Verify() == nil && berr == nil, "NewLeaseSet", [][]byte{b}, "", "Verify() failed on constructor output")
+					okv := ls.Verify() == nil && berr == nil
+					c.Check("signed_verifies_before_wire", okv, "NewLeaseSet", [][]byte{b}, "", "Verify() failed on constructor output")
+					if okv {
+						okq, dq := verifiesAfterQueries(&ls)
+						c.Check("signed_verifies_before_wire", okq, "NewLeaseSet", [][]byte{b}, "", dq)
+					}
 					if berr == nil {
 						sc := signedCase{E_VerifyLeaseSet, "LeaseSet.Verify", nil, b, nil}
 						var v bool
 						c.Case(sc.entry, [][]byte{b}, func() Obs { v, _, _ = c05Impl(sc); return OK(bool1(v)) })
 						p2, perr := lease_set.ReadLeaseSet(b)
-						c.Check("signed_verifies_after_wire", perr == nil && p2.Verify() == nil && v, "NewLeaseSet", [][]byte{b}, "", fmt.Sprintf("parse err=%v", perr))
+						okw := perr == nil && p2.Verify() == nil
+						c.Check("signed_verifies_after_wire", okw && v, "NewLeaseSet", [][]byte{b}, "", fmt.Sprintf("parse err=%v", perr))
+						if okw {
+							okq, dq := verifiesAfterQueries(&p2)
+							c.Check("signed_verifies_after_wire", okq, "NewLeaseSet", [][]byte{b}, "", dq)
+						}
 					}
 				} else {
 					c.Check("constructor_accepts_admissible", false, "NewLeaseSet", nil, "", fmt.Sprintf("NewLeaseSet failed: %v", nerr))
@@ -165,13 +184,23 @@ func runC06(c *Ctx) {
 				continue
 			}
 			b, berr := e.Bytes()
-			c.Check("signed_verifies_before_wire", e.Verify() == nil && berr == nil, "NewEncryptedLeaseSet", [][]byte{b}, "", "Verify() failed on constructor output")
+			okv := e.Verify() == nil && berr == nil
+			c.Check("signed_verifies_before_wire", okv, "NewEncryptedLeaseSet", [][]byte{b}, "", "Verify() failed on constructor output")
+			if okv {
+				okq, dq := verifiesAfterQueries(e)
+				c.Check("signed_verifies_before_wire", okq, "NewEncryptedLeaseSet", [][]byte{b}, "", dq)
+			}
 			if berr == nil {
 				sc := signedCase{E_VerifyEncryptedLeaseSet, "EncryptedLeaseSet.Verify", []byte{5}, b, nil}
 				var v bool
 				c.Case(sc.entry, [][]byte{b}, func() Obs { v, _, _ = c05Impl(sc); return OK(bool1(v)) })
 				p2, rem, perr := encrypted_leaseset.ReadEncryptedLeaseSet(b)
-				c.Check("signed_verifies_after_wire", perr == nil && len(rem) == 0 && p2.Verify() == nil && v, "NewEncryptedLeaseSet", [][]byte{b}, "", fmt.Sprintf("parse err=%v", perr))
+				okw := perr == nil && len(rem) == 0 && p2.Verify() == nil
+				c.Check("signed_verifies_after_wire", okw && v, "NewEncryptedLeaseSet", [][]byte{b}, "", fmt.Sprintf("parse err=%v", perr))
+				if okw {
+					okq, dq := verifiesAfterQueries(p2)
+					c.Check("signed_verifies_after_wire", okq, "NewEncryptedLeaseSet", [][]byte{b}, "", dq)
+				}
 			}
 		}
 		// ---- OfflineSignature for EVERY transient signing type the constructor accepts (the
@@ -229,4 +258,32 @@ func runC06(c *Ctx) {
 			}
 		}
 	}
+}
+
+// verifiesAfterQueries: every exported argument-free method of the value is asked (accessors, expiry
+// queries, Validate, ...), then the signature check again: read-only questions in between must not
+// turn a verifying value into one that does not verify or serialises differently
+func verifiesAfterQueries(v interface{}) (ok bool, detail string) {
+	before := reserialise(v)
+	callAllMethods(v)
+	after := reserialise(v)
+	if !bytes.Equal(before, after) {
+		return false, "the serialisation changed after the value's argument-free methods were called"
+	}
+	rv := reflect.ValueOf(v)
+	if m := rv.MethodByName("Verify"); m.IsValid() && m.Type().NumIn() == 0 && m.Type().NumOut() == 1 {
+		out := m.Call(nil)
+		if !out[0].IsNil() {
+			return false, fmt.Sprintf("Verify() fails after the value's argument-free methods were called: %v", out[0].Interface())
+		}
+		return true, ""
+	}
+	if m := rv.MethodByName("VerifySignature"); m.IsValid() && m.Type().NumIn() == 0 && m.Type().NumOut() == 2 {
+		out := m.Call(nil)
+		if !out[0].Bool() || !out[1].IsNil() {
+			return false, "VerifySignature() fails after the value's argument-free methods were called"
+		}
+		return true, ""
+	}
+	return true, ""
 }
